@@ -317,7 +317,28 @@ def enum_real_depsets(seed):
                 if got != want and len(fails) < 4:
                     fails.append({"model": {"history": list(hist), "attribute": attr, "use": sorted(w.use), "wrapper": "ConfiguredTree.package_class" if via_tree else "make_wrapper"},
                                   "detail": f"[{'ConfiguredTree' if via_tree else 'make_wrapper'}] history {hist}: {attr} reads {got!r} but the raw attribute under USE {sorted(w.use)} is {want!r}"})
-    return {"name": "C14.real_depsets.bounded_enumeration", "bound": "700 random histories of <= 8 enable/disable/rollback/commit/read steps over 6 flags on three real dependency sets and a LICENSE, half of them on packages wrapped by a real ConfiguredTree (one tree for all) "
+    # several views of ONE raw package taken from the tree, their histories interleaved: what one view evaluated must never be served to another
+    for trial in range(150):
+        raw = Raw()
+        views = [W_tree(raw, initial_settings=rnd.sample(FLAGS, rnd.randint(0, 3)), unchangable_settings=["locked"]) for _ in range(rnd.choice((2, 2, 3)))]
+        hist = []
+        for _ in range(rnd.randint(3, 9)):
+            vi = rnd.randrange(len(views))
+            w = views[vi]
+            op = rnd.choice(ops[:13])
+            kind, *flags = op.split()
+            if kind == "en" and any(f in w.use for f in flags) or kind == "dis" and any(f not in w.use for f in flags):
+                continue
+            hist.append(f"view {vi}: {op}")
+            if op != "read":
+                (w.request_enable if kind == "en" else w.request_disable)("use", *flags)
+            for attr in (("depend", "rdepend", "pdepend", "license") if rnd.random() < .7 else ("depend",)):
+                cases += 1
+                got, want = str(getattr(w, attr)), str(getattr(Raw, attr).evaluate_depset(w.use))
+                if got != want and len(fails) < 4:
+                    fails.append({"model": {"history": list(hist), "attribute": attr, "use": sorted(w.use), "wrapper": "ConfiguredTree.package_class, several views of one raw package"},
+                                  "detail": f"[{len(views)} views of one raw package from one ConfiguredTree] history {hist}: view {vi} reads {attr} = {got!r} but the raw attribute under its USE {sorted(w.use)} is {want!r}"})
+    return {"name": "C14.real_depsets.bounded_enumeration", "bound": "150 interleaved histories over 2..3 views of one raw package taken from one ConfiguredTree; 700 random histories of <= 8 enable/disable/rollback/commit/read steps over 6 flags on three real dependency sets and a LICENSE, half of them on packages wrapped by a real ConfiguredTree (one tree for all) "
             "(plain conditionals, [f?] [f=] [!f?] [!f=] with and without (+)/(-) defaults, ||), attributes read after every step (sometimes only one of them, so that stale entries survive)",
             "cases": cases, "failures": fails}
 
